@@ -620,8 +620,15 @@ def build_case(res):
     sel = selected(world)
     keys = out_keys(world)
     contents, invalid = [], []
+    res["unknown_content"] = 0
     for p, q in sel:
-        h = res["ref_contents"].get(tuple(q["path"]), b"<no reference content: this file cannot be produced>")
+        h = res["ref_contents"].get(tuple(q["path"]))
+        if h is None:
+            # no reference (the valid base has no such output): the content cannot be judged,
+            # everything else (exit class, which paths change) still is
+            obs = res["after"].get(tuple(q["path"]))
+            h = obs if isinstance(obs, bytes) and obs != res["before"].get(tuple(q["path"])) else b"<no reference content: this file cannot be produced>"
+            res["unknown_content"] += 1 if isinstance(obs, bytes) and obs != res["before"].get(tuple(q["path"])) else 0
         if (q["key"], h) not in contents and q["key"] not in [k for k, _ in contents]:
             contents.append((q["key"], h))
         if not q["syntax_ok"] and q["key"] not in invalid:
@@ -850,7 +857,7 @@ def selecting(scn):
     w = resolve(bind(scn, "/nonexistent"), "/nonexistent")
     out = {}
     for p, q in selected(w):
-        if p["path"] in scn["packages"]:
+        if p["path"] in scn["packages"] and p["nerrors"] == 0:      # not a package injected as a load error
             out.setdefault(p["path"], [])
             if q["iface"] not in out[p["path"]]:
                 out[p["path"]].append(q["iface"])
@@ -879,7 +886,13 @@ def level_dict(rng, scn, levels=("root", "pkg", "iface", "entry")):
         ie["configs"] = [{}, {"structname": "Other{{.InterfaceName}}", "filename": "other_{{.InterfaceName}}_test.go"}]
         if scn.get("base_ref") is not None:
             # the extra entry adds an output file: the valid base gets it too (reference content)
-            bent = ensure_cfg(scn["base_ref"], path)
+            bref = scn["base_ref"]
+            for n in scn["pkgs"]:                      # an earlier injection may have added packages
+                if n not in bref["pkgs"] and not CATALOG[n].get("absent") and not CATALOG[n].get("errors") and not CATALOG[n].get("nogo") and n != "tagged":
+                    bref["pkgs"].append(n)
+            if path not in bref["packages"]:
+                bref["packages"][path] = copy.deepcopy({k: v for k, v in ent.items() if k != "interfaces"})
+            bent = ensure_cfg(bref, path)
             if not bent["config"]:
                 del bent["config"]
             bent.setdefault("interfaces", {})
@@ -898,11 +911,11 @@ def inj_listed_missing(rng, scn):
     scn["tags"].append("ListedMissing")
 
 
-def inj_pkg_load_error(rng, scn):
-    name = rng.choice(["typeerr", "syntaxerr", "badimport", "nonexist", "emptydir", "tagged"])
+def inj_pkg_load_error(rng, scn, fileless=False):
+    name = rng.choice(["nonexist", "emptydir", "tagged"] if fileless else ["typeerr", "syntaxerr", "badimport", "nonexist", "emptydir", "tagged"])
     if name not in scn["pkgs"]:
         scn["pkgs"].append(name)
-    mode = rng.choice(["all", "listed", "rootall"])
+    mode = rng.choice(["all", "rootall"] if fileless else ["all", "listed", "rootall"])
     if mode == "all":
         scn["packages"][pkg_path(name)] = {"config": {"all": True}}
     elif mode == "listed":
@@ -926,7 +939,7 @@ def inj_unknown_formatter(rng, scn):
 
 
 def inj_unknown_key(rng, scn):
-    key = rng.choice(["dirr", "file-name", "mockname", "inpackage", "with-expecter", "Template", "outpkg"])
+    key = rng.choice(["dirr", "file-name", "mockname", "inpackage", "with-expecter", "templates", "outpkg"])
     lv = rng.choice(["root", "pkg", "iface", "entry", "pkgentry", "ifaceentry"])
     if lv in ("pkgentry", "ifaceentry"):
         path, _ = pick_pkg(rng, scn, lambda p, e: ifaces_of(p))
@@ -1001,11 +1014,11 @@ def inj_schema_reject(rng, scn):
 
 
 def inj_conflict_pkg(rng, scn):
-    ps = [p for p in scn["packages"] if ifaces_of(p)]
+    ps = sorted(selecting(scn))
     if len(ps) < 2:
         scn["pkgs"].append("b" if pkg_path("b") not in scn["packages"] else "a")
         scn["packages"][pkg_path(scn["pkgs"][-1])] = {"config": {"all": True}}
-        ps = [p for p in scn["packages"] if ifaces_of(p)]
+        ps = sorted(selecting(scn))
     a, b = rng.sample(ps, 2)
     for p in (a, b):
         c = ensure_cfg(scn, p)["config"]
@@ -1137,7 +1150,8 @@ def inj_prepare_failure(rng, scn):
 
 
 INJECTIONS = {
-    "ListedMissing": inj_listed_missing, "PkgLoadError": inj_pkg_load_error, "UnknownTemplate": inj_unknown_template,
+    "ListedMissing": inj_listed_missing, "PkgLoadError": inj_pkg_load_error,
+    "PkgLoadErrorFileless": lambda rng, scn: inj_pkg_load_error(rng, scn, True), "UnknownTemplate": inj_unknown_template,
     "UnknownFormatter": inj_unknown_formatter, "UnknownKey": inj_unknown_key,
     "BadRegexInclude": lambda rng, scn: inj_bad_regex(rng, scn, "include"),
     "BadRegexExclude": lambda rng, scn: inj_bad_regex(rng, scn, "exclude"),
@@ -1275,9 +1289,25 @@ def gen_gomod_text(rng):
         elif r < 0.92:
             aux_ok = False
             rest.append(rng.choice(["go abc", "require a.b/c", "go 1.2 3", "require a.b/c notaversion"]))
-    # a second go statement is rejected by the library
-    if sum(1 for x in rest if x.startswith("go") and not x.startswith("godebug")) > 1:
-        aux_ok = False
+    ODD = ["module other/path", "module (", ")", "foo (", "( x", "\"unterminated", "x /* y", "weird ( )", "x ( ) y"]
+    BADAUX = ["go abc", "require a.b/c", "go 1.2 3", "require a.b/c notaversion"]
+    isgo = lambda x: x.startswith("go") and not x.startswith("godebug")
+    if any(x in ODD for x in rest) or shape == "malformed":
+        # which lines are statements then depends on the block structure: keep the
+        # go/require/retract statements well formed and unique, so that aux_ok = True is right
+        rest = [x for x in rest if x not in BADAUX]
+        seen_go = False
+        kept = []
+        for x in rest:
+            if isgo(x):
+                if seen_go:
+                    continue
+                seen_go = True
+            kept.append(x)
+        rest = kept
+        aux_ok = True
+    elif sum(1 for x in rest if isgo(x)) > 1:
+        aux_ok = False                      # a second go statement is rejected by the library
     text = "\n".join(lines + rest)
     if rng.random() < 0.8:
         text += "\n"
@@ -1289,6 +1319,13 @@ GOMOD_CORPUS = [(t.encode(), True, "corpus:" + n) for n, t in GOMOD_SPELLINGS] +
     (b"module\tx\r\n", True, "corpus:tab-crlf"), (b"module x\nmodule y\n", True, "corpus:two"),
     (b"module \"x\" // c\n", True, "corpus:quoted-comment"), (b"module x//c\n", True, "corpus:comment-nospace"),
     (b"module a/b/\n", True, "corpus:trailing-slash"), (b"module a//b\n", True, "corpus:slash-pair")]
+
+
+def gomod_corpus():
+    f = VERIF / "corpus" / "C09" / "gomod.json"
+    if not f.exists():
+        return []
+    return [(bytes.fromhex(c["text_hex"]), c["aux_ok"], "corpus:" + c["name"]) for c in json.loads(f.read_text())]
 
 
 def gobs_term(o):
@@ -1381,9 +1418,12 @@ def apply_injections(rng, kinds_):
         s = copy.deepcopy(base)
         s["base_ref"] = base
         ks = sorted(kinds_, key=lambda k: k in ("NoPackages", "ConfigUnreadable"))     # these replace the whole config: last
-        for k in ks:
-            if s["raw_config"] is None and not s["no_config"] and s["packages"]:
-                INJECTIONS[k](rng, s)
+        try:
+            for k in ks:
+                if s["raw_config"] is None and not s["no_config"] and s["packages"]:
+                    INJECTIONS[k](rng, s)
+        except (IndexError, KeyError, ValueError):
+            continue          # the first injection left nothing for the second one to attach to
         del s["base_ref"]
         if s["raw_config"] is not None or s["no_config"] or foreign_class(s) or foreign_class(base):
             if s["raw_config"] is not None or s["no_config"]:
@@ -1470,6 +1510,85 @@ def alias_witness(rng):
     return s
 
 
+# ---------------- config shape fuzz: oracle only (never a panic, failures carry a diagnostic) ----
+JUNK = [None, 0, -1, 1.5, "", "x", True, [], {}, [None], [[]], {"x": None}, {"config": None}, [1, "a", None],
+        {"a": {"b": {"c": {"d": [{}]}}}}, "{{", "{{.X}}", "(", ["("], {"": ""}, "\u0000", 2 ** 70]
+TYPED_JUNK = {"all": ["maybe", [True], {"x": 1}, 2], "recursive": ["yes", None, []], "dir": [5, None, ["a"], {"x": 1}, True],
+              "filename": [7, [], ""], "configs": [{}, "x", [None, 3], [[]], [{"configs": []}], None],
+              "interfaces": [[], "x", {"A1": 5}, {"A1": []}, {"A1": {"config": 3}}, {"A1": {"configs": {"a": 1}}}, {"": None}],
+              "template-data": [[1], "x", 3, {"a": {"b": None}}, {"unroll-variadic": None}], "config": [[], 3, "x"],
+              "replace-type": [{"a": None}, {"a": {"B": None}}, {"a": {"B": {"pkg-path": 3}}}, [], "x", {"a": {"B": []}}],
+              "exclude-subpkg-regex": ["x", [1, None], {"a": 1}, [[]], None], "include-interface-regex": [[], 3, None, True],
+              "build-tags": [[], 1, "a  b", None], "formatter": [None, 1, []], "force-file-write": ["TRUE", 1, None, []],
+              "packages": [None, [], "x", {"": None}, {"example.com/m/a": []}, {"example.com/m/a": 3}, {"./a": None}, {"example.com/m/...": {"config": {"all": True}}}],
+              "log-level": ["loud", 3, None], "template": [None, 3, [], "file://", "file:///", "https://", "http://%zz"],
+              "template-schema": [None, 3, "file://", "{{"], "_anchors": [None], "structname": [None, 3, ""], "pkgname": [None, "", 3, "a b"]}
+
+
+def nodes(tree, path=()):
+    yield path, tree
+    if isinstance(tree, dict):
+        for k, v in tree.items():
+            yield from nodes(v, path + (k,))
+    elif isinstance(tree, list):
+        for i, v in enumerate(tree):
+            yield from nodes(v, path + (i,))
+
+
+def set_at(tree, path, value):
+    if not path:
+        return value
+    t = tree
+    for k in path[:-1]:
+        t = t[k]
+    t[path[-1]] = value
+    return tree
+
+
+def fuzz_config(rng):
+    base = gen_base(rng, pkgs=rng.sample(["a", "b", "c"], 2) + (["r", "r/s1", "r/s2"] if rng.random() < 0.3 else []))
+    tree = json.loads(config_bytes(base).decode())
+    what = []
+    for _ in range(rng.randint(1, 2)):
+        r = rng.random()
+        allnodes = list(nodes(tree))
+        if r < 0.45:
+            path, _ = rng.choice(allnodes[1:] or allnodes)
+            tree = set_at(tree, path, copy.deepcopy(rng.choice(JUNK)))
+            what.append("replace %s" % (path,))
+        else:
+            k = rng.choice(sorted(TYPED_JUNK))
+            v = copy.deepcopy(rng.choice(TYPED_JUNK[k]))
+            dicts = [p for p, n in allnodes if isinstance(n, dict)]
+            path = rng.choice(dicts)
+            if k == "packages":
+                path = ()
+            tgt = tree
+            for x in path:
+                tgt = tgt[x]
+            if isinstance(tgt, dict):
+                tgt[k] = v
+            what.append("set %s at %s" % (k, path))
+    s = new_scn(base["pkgs"])
+    s["raw_config"] = json.dumps(tree).encode()
+    s["cfg_status"] = "unknown"
+    s["tags"] = ["fuzz"]
+    s["fuzz"] = what
+    return s
+
+
+def run_fuzz(ctx, scns, start):
+    def one(t):
+        i, s = t
+        S = str(ctx.scratch / ("fz%d" % (start + i)))
+        b = bind(s, S)
+        materialize(b, S)
+        r = run_mockery(ctx, b, S)
+        shutil.rmtree(S, ignore_errors=True)
+        return r
+    return pmap(one, list(enumerate(scns)), workers=min(JOBS, 12))
+
+
 def check(ctx, only=None):
     gate = proof_gate(ctx)
     if not ctx.build_tree():
@@ -1482,7 +1601,7 @@ def check(ctx, only=None):
     oracle_fail, nofail, samples = [], [], []
     hist = {}
     # ---------------- 1. go.mod texts against findPkgPath ----------------
-    gm = list(GOMOD_CORPUS) + [gen_gomod_text(ctx.rng) for _ in range(6000 if big else 900)]
+    gm = gomod_corpus() + list(GOMOD_CORPUS) + [gen_gomod_text(ctx.rng) for _ in range(6000 if big else 900)]
     if only is not None:
         gm = [(bytes.fromhex(x["text_hex"]), x["aux_ok"], "replay") for x in only.get("gomod", [])]
     gobs = run_modpath(ctx, [t for t, _, _ in gm]) if gm else []
@@ -1503,6 +1622,21 @@ def check(ctx, only=None):
                               n_unusual=(len(UNUSUAL) * 8 if big else len(UNUSUAL) + 3), n_valid=(60 if big else 8))
         pairs += [(alias_witness(ctx.rng), None) for _ in range(2)]
     results = run_pipeline_stream(ctx, pairs, oracle_c09)
+    # ---------------- 3. config shapes (oracle only) ----------------
+    if only is not None:
+        fz = [dict(new_scn(x["pkgs"]), raw_config=bytes.fromhex(x["raw_config_hex"]), tags=["fuzz"], cfg_status="unknown") for x in only.get("fuzz", [])]
+    else:
+        fz = [fuzz_config(ctx.rng) for _ in range(1500 if big else 120)]
+    for s, r in zip(fz, run_fuzz(ctx, fz, 100000)):
+        hist["config-shape-fuzz"] = hist.get("config-shape-fuzz", 0) + 1
+        bad_ = []
+        if r["cls"] == "Panic":
+            bad_.append("mockery terminated by an unrecovered panic on a malformed configuration: %s" % (re.findall(r"panic: [^\n]*", r["tail"]) or [r["tail"][-200:]])[0])
+        elif r["cls"] == "ExitErr" and not r["diag"]:
+            bad_.append("non-zero exit without a diagnostic on a malformed configuration")
+        if bad_:
+            oracle_fail.append(("fuzz", {"what": bad_, "fuzz": [{"pkgs": s["pkgs"], "raw_config_hex": s["raw_config"].hex()}],
+                                         "config": json.loads(s["raw_config"].decode()), "mutations": s.get("fuzz"), "output_tail": r["tail"][-800:]}))
     terms, tidx = [], []
     known = load_known("C09")
     for res in results:
@@ -1522,7 +1656,8 @@ def check(ctx, only=None):
                 raise RuntimeError("generator/resolver inconsistency: injected %s but resolved classes are %s (%s)" % (t, sorted(classes), json.dumps(describe(res))[:1500]))
         if scn.get("alias"):
             if known_symptom(res, None) and any(k["id"] == "C09-output-path-alias" for k in known):
-                ctx.known("two spellings of one output file with force-file-write: exit 0, one mock lost (C09-output-path-alias)")
+                if not ctx.known_seen:
+                    ctx.known("two spellings of one output file with force-file-write: exit 0, one mock lost (C09-output-path-alias)")
             elif res["run"]["cls"] != "Exit0" or all(res["present"].values()):
                 oracle_fail.append(("pipeline", to_replay(res, ["the symptom of known finding C09-output-path-alias changed: exit=%s, present=%s; update known/C09.json and the guard no_alias" % (res["run"]["cls"], res["present"])],
                                                           {"scenarios_key": True})))
@@ -1579,11 +1714,12 @@ def check(ctx, only=None):
     ctx.write_evidence(gate, len(results) + sum(1 for r in results if r.get("ref")) + len(gm), distinct + gd,
                        "whole runs of the freshly built binary on generated module trees + configurations: every failure class injected alone (at a random level where it can be written) and in pairs into an otherwise valid multi-package configuration, valid-but-unusual inputs, plus the valid base configuration of every scenario in a pristine tree; non-trivial run = in a failure class or unusual, distinct by (config, packages, go.mod). go.mod texts: generated from the directive grammar plus a malformed stream and run through mockery's findPkgPath; non-trivial = a module path was found, distinct by text",
                        samples, extra={"class_histogram": hist, "model_mismatches": len(bad), "gomod_mismatches": len(gbad),
-                                       "oracle_failures": len(oracle_fail), "oracle_failure_categories": fail_cats, "runs": len(results), "gomod_texts": len(gm), "coq_cases": len(terms)},
+                                       "oracle_failures": len(oracle_fail), "oracle_failure_categories": fail_cats, "runs": len(results),
+                                       "written_files_without_reference_content": sum(r.get("unknown_content", 0) for r in results), "gomod_texts": len(gm), "coq_cases": len(terms)},
                        assumptions=["Python resolver (harness/checks/c09.py: resolve) computes the effective per-mock values of the generated configurations; it only has to be right on the configurations the generators produce (a wrong value shows up as a correspondence mismatch)",
                                     "modfile.ParseLax's checks of go/require/retract statements are a parameter of the model (the generator marks texts with a malformed such statement)"])
 
 
 def replay(ctx, path):
     d = json.loads(open(path).read())
-    check(ctx, only={"scenarios": d.get("scenarios", []), "gomod": d.get("gomod", [])})
+    check(ctx, only={"scenarios": d.get("scenarios", []), "gomod": d.get("gomod", []), "fuzz": d.get("fuzz", [])})
